@@ -17,9 +17,11 @@
 (*             the depacketizer reports as partition head / partition tail) *)
 (*   pushes  : what reached the builder, in arrival order: [tag, at]        *)
 (*             (a tag may be absent = lost, or repeated = duplicate)        *)
-(*   samples : what Pop returned, in order: [tags, wf, at]; tags are read   *)
-(*             off the sample's payload (each packet's depacketized payload *)
-(*             is its tag), wf says the payload was a whole number of tags  *)
+(*   samples : what Pop returned, in order: [tags, ats, wf, at]; tags and   *)
+(*             ats are read off the sample's payload (each packet's         *)
+(*             depacketized payload is its tag and the script position of   *)
+(*             the Push that brought this copy), wf says the payload was a  *)
+(*             whole number of such entries                                 *)
 (*   at      : position of the call in the session's script (1, 2, ...)     *)
 (* M is the sequence-number modulus (2^16 for RTP; small in model runs).    *)
 EXTENDS Integers, Sequences, FiniteSets, TLC, Json
@@ -79,6 +81,50 @@ TwiceShape(samples) ==
         \E i \in DOMAIN samples, j \in DOMAIN samples : i < j /\ samples[i].tags = samples[j].tags
                                                       /\ \E k \in DOMAIN samples[i].tags : samples[i].tags[k] = tag
   THEN "repeat" ELSE "overlap"
+
+\* In which situation did the builder accept the (first) packet P of a sample that then came out
+\* wrongly?  Looked at from outside, at the moment P was pushed:
+\*   held    the packets pushed since the last Flush (or the start) that had not come out in a sample
+\*   popped  Pop had been called since that Flush while such packets were there (the builder had
+\*           begun to hand out the stream it was holding)
+\* "drained"               nothing was held: the builder was empty and had no memory of the past
+\* "among-held"            some held packet precedes P: P fell inside / after what was buffered
+\* "before-held-unpopped"  every held packet follows P and Pop had not been called on them
+\* "before-held-popped"    every held packet follows P and the builder was already handing them out
+PushSituation(stream, held, p, popped, M) ==
+  IF held \ {p} = {} THEN "drained"
+  ELSE IF \E q \in held \ {p} : SeqBefore(stream[q].seq, stream[p].seq, M) THEN "among-held"
+  ELSE IF popped THEN "before-held-popped" ELSE "before-held-unpopped"
+
+\* the same from a recorded session: pushes [tag, at], samples [tags, at], script positions of the Pop
+\* and Flush calls; `at` is the position of the push of p that is looked at
+LastFlushBefore(flushes, at) ==
+  LET before == {f \in flushes : f < at} IN IF before = {} THEN 0 ELSE CHOOSE f \in before : \A g \in before : g <= f
+HeldAt(pushes, samples, flushes, at) ==
+  LET lf == LastFlushBefore(flushes, at) IN
+  {pushes[j].tag : j \in {j2 \in DOMAIN pushes : lf < pushes[j2].at /\ pushes[j2].at < at}}
+    \ UNION {{samples[i].tags[k] : k \in DOMAIN samples[i].tags} : i \in {i2 \in DOMAIN samples : samples[i2].at < at}}
+PoppedAt(pushes, popCalls, flushes, at) ==
+  LET lf == LastFlushBefore(flushes, at) IN
+  \E c \in popCalls : lf < c /\ c < at /\ \E j \in DOMAIN pushes : lf < pushes[j].at /\ pushes[j].at < c
+\* The sample names the arrivals it was built from (ats: script positions of the pushes); the one that
+\* is looked at is the arrival of its first packet.
+SampleContext(stream, pushes, samples, popCalls, flushes, i, M) ==
+  IF Len(samples[i].tags) = 0 \/ ~Known(stream, samples[i].tags[1]) \/ Len(samples[i].ats) = 0 THEN "unknown-arrival"
+  ELSE LET at == samples[i].ats[1] IN
+       PushSituation(stream, HeldAt(pushes, samples, flushes, at), samples[i].tags[1],
+                     PoppedAt(pushes, popCalls, flushes, at), M)
+       \o (IF LastFlushBefore(flushes, at) > 0 THEN "/after-a-flush" ELSE "/no-flush-yet")
+Contexts == {"drained", "among-held", "before-held-unpopped", "before-held-popped"}
+\* maxLate so small that one frame of three packets overflows the window
+WindowClass(maxLate) == IF maxLate <= 3 THEN "tiny-window" ELSE "window"
+WindowClasses == {"tiny-window", "window"}
+\* a later sample that re-uses a packet: "repeat" if it is an earlier sample all over again
+ReusesPacket(samples, i) ==
+  \E k \in DOMAIN samples[i].tags :
+     \/ \E j \in 1..(i - 1) : \E k2 \in DOMAIN samples[j].tags : samples[j].tags[k2] = samples[i].tags[k]
+     \/ \E k2 \in DOMAIN samples[i].tags : k2 < k /\ samples[i].tags[k2] = samples[i].tags[k]
+ReuseShape(samples, i) == IF \E j \in 1..(i - 1) : samples[j].tags = samples[i].tags THEN "repeat" ELSE "overlap"
 
 \* ---- completeness after Flush --------------------------------------------------------------------
 \* A frame is a maximal run of consecutive stream positions with one frame id (the sender numbers
